@@ -97,10 +97,10 @@ def _xmax(ctx, key, v):
 
 
 def _sample_now(ctx, kind, every):
-    """Keep the first non-trivial case of each clause per shard, then every `every`-th."""
+    """Keep the first three non-trivial cases of each clause per shard, then every `every`-th."""
     seen = ctx.__dict__.setdefault("_c16_seen", {})
     seen[kind] = seen.get(kind, 0) + 1
-    return seen[kind] % every == 1
+    return seen[kind] <= 3 or seen[kind] % every == 0
 
 
 def _nsub(order):
@@ -422,7 +422,7 @@ def eval_order(case, ctx):
 
 # ------------------------------------------------------------------ clause 4: bounded energy
 def _nsteps(ctx, order):
-    quick = {2: 60000, 4: 30000, 6: 12000, 8: 10000}
+    quick = {2: 40000, 4: 20000, 6: 10000, 8: 10000}
     thorough = {2: 100000, 4: 60000, 6: 30000, 8: 15000}
     return (quick if ctx.tier == "quick" else thorough)[order]
 
@@ -519,9 +519,9 @@ def run(ctx):
     ph["import+jit"] = time.time() - t0
     if ctx.shard == 0:
         control(ctx)
-    for label, strat, ev, n, shrink in (("map", map_case(), eval_map, ctx.scale(240, 10000), True),
-                                        ("order", order_case(), eval_order, ctx.scale(128, 3200), False),
-                                        ("energy", energy_case(), eval_energy, ctx.scale(32, 320), False)):
+    for label, strat, ev, n, shrink in (("map", map_case(), eval_map, ctx.scale(200, 6000), True),
+                                        ("order", order_case(), eval_order, ctx.scale(120, 2400), False),
+                                        ("energy", energy_case(), eval_energy, ctx.scale(24, 192), False)):
         t0 = time.time()
         explore(ctx, label, strat, ev, ctx.share(n), shrink=shrink)
         ph[label] = time.time() - t0
